@@ -31,6 +31,10 @@ func DegeneracyOrdering(g graph.Undirected) (order []graph.Node, cores [][]graph
 func KCore(k int, g graph.Undirected) []graph.Node {
 	order, offsets := degeneracyOrdering(g)
 
+	if k > len(offsets) {
+		// No node has a core number above the degeneracy.
+		k = len(offsets)
+	}
 	var offset int
 	for _, n := range offsets[:k] {
 		offset += n
